@@ -57,6 +57,14 @@ func MTPFaults(prefix string, get func(p *ProofJ, e *Env) **MTPJ, honest *MTPJ, 
 		add("sibling-dropped", "reject", func(m *MTPJ) *MTPJ { m.Siblings = m.Siblings[:n-1]; return m })
 		add("sibling-not-in-field", "reject", func(m *MTPJ) *MTPJ { m.Siblings[0] = Q.String(); return m })
 	}
+	add("siblings-300-nonzero", "reject", func(m *MTPJ) *MTPJ {
+		// more siblings than the library's bitmap has bits: a decode error since c1afc2d
+		for len(m.Siblings) < 300 {
+			m.Siblings = append(m.Siblings, RandField(rng).String())
+		}
+		return m
+	})
+	add("sibling-null", "reject", func(m *MTPJ) *MTPJ { m.Siblings = append(m.Siblings, "null-sibling"); return m })
 	add("sibling-appended", "reject", func(m *MTPJ) *MTPJ {
 		m.Siblings = append(m.Siblings, RandField(rng).String())
 		return m
